@@ -4,7 +4,7 @@ from harness import common, layerb as B, schemes as S
 from univers.version_constraint import VersionConstraint
 from univers.version_range import VersionRange, RANGE_CLASS_BY_SCHEMES
 
-MODULES = ["Univers.Props.C17"]
+MODULES = ["Univers.Props.C17", "Univers.Props.Schemes"]
 LEVEL = "proof"
 RULE = ("per registered scheme: seeded well-formed ranges (patterns accepted by the model's validation) and seeded random walks "
         "over the operation alphabet {print+parse, permute+rebuild, simplify, validate, invert twice, parse with simplify and "
